@@ -21,6 +21,8 @@ PARAM_SETS = {
     'fleet': dict(nsteps=35, nfits=3, nuni=1, fleet=True, switch=False),
     'long': dict(nsteps=70, nfits=2, nuni=2, malformed=0.15),
     'noswitch-projected': dict(nsteps=40, nfits=3, nuni=1, switch=False, neff=11),
+    'pymods': dict(nsteps=45, nfits=2, nuni=2, pymods=True, nattr=8, prefill=True),      # impl-level oracles only
+    'projheavy': dict(nsteps=45, nfits=3, nuni=1, switch=False, neff=12, proj_bias=True, prefill=True, nattr=7),
 }
 
 
@@ -34,12 +36,12 @@ def ops_of(case):
     return [tup(o) for o in case['ops']]
 
 
-def histories(ctx, rep, pnames, n, label, want=('L1', 'L2'), on_history=None):
+def histories(ctx, rep, pnames, n, label, want=('L1', 'L2'), on_history=None, promote_l1=False):
     """Run n generated histories per parameter set against the Lean spec."""
     for pname in pnames:
         p = PARAM_SETS[pname]
         base = ctx.sub_rnd(label, pname).randrange(10 ** 9)
-        for k in range(n):
+        for k in range(n[pname] if isinstance(n, dict) else n):
             seed = base + k
             h, dis = WC.check_history(seed, p)
             sig = None
@@ -70,8 +72,23 @@ def histories(ctx, rep, pnames, n, label, want=('L1', 'L2'), on_history=None):
                 ops = WC.shrink(seed, p, h['ops'], fails)
                 h2, d2 = WC.check_history(seed, p, ops)
                 d2 = [x for x in d2 if x['where'] == d['where']] or [d]
-                rep.disagree(d['where'], d2[0]['model'], d2[0]['impl'],
-                             dict(case_of(seed, pname, ops), key=d2[0]['key'], step=d2[0]['step']))
+                case = dict(case_of(seed, pname, ops), key=d2[0]['key'], step=d2[0]['step'])
+                rep.disagree(d['where'], d2[0]['model'], d2[0]['impl'], case)
+                # is the disagreeing (shrunk) history a failure of the property on the real code alone?
+                try:
+                    why = replay_mirror(seed, p, ops)
+                except Exception as e:
+                    why = 'mirror replay raised %s' % type(e).__name__
+                if why:
+                    rep.violate('history on which the Lean spec and the real code disagree also fails the '
+                                'from-scratch oracle: ' + why, dict(case, oracle='mirror', model=str(d2[0]['model']),
+                                                                     impl=str(d2[0]['impl'])))
+                elif promote_l1 and d['where'].startswith('L1:'):
+                    # properties that are stated against the rules themselves (C02, C13): a public value that
+                    # differs from the specified one on a concrete history is a failing input
+                    rep.violate('public observation %s of %r is %r, the specified value is %r'
+                                % (d['where'], d2[0]['key'], d2[0]['impl'], str(d2[0]['model'])),
+                                dict(case, oracle='lean-spec'))
 
 
 def final_obs(h):
